@@ -500,6 +500,18 @@ def enum_p256(tier, shard, nshards, rng):
             if v >> 248 == 0 and found[nm] < 3:
                 found[nm] += 1
                 ks.append(d)
+    # CONSTRUCTED: keys whose X (resp. Y) STARTS with a byte that has a meaning in one of the encodings involved
+    # (04 uncompressed marker, 02/03 compressed markers, 06/07 hybrid markers, 30 SEQUENCE, 00 padding, 80/FF sign bit):
+    # a raw 64-byte <-> DER conversion that sniffs a prefix instead of using the fixed 27-byte header fails exactly there.
+    want = {(nm, b) for nm in ("x", "y") for b in (0x04, 0x02, 0x03, 0x06, 0x07, 0x30, 0x80, 0xFF)}
+    d = 1
+    while want and d < 60000:
+        d += 1
+        x, y = g.mul(d)
+        for nm, v in (("x", x), ("y", y)):
+            if (nm, v >> 248) in want:
+                want.discard((nm, v >> 248))
+                ks.append(d)
     for i, d in enumerate(ks):
         if i % nshards == shard:
             yield dict(x=d - 1, variant=i % 6)
